@@ -18,7 +18,7 @@ ASSUMPTIONS = ["vf/model.py resolution: local -> same scope; ordinary -> own fil
                "one reported expected identifier suffices when several errors are planted (the first error aborts the build)"]
 
 NAMES = gen.names("q", 4)           # q0..q3 reused everywhere
-LOCALS = ["1$", "2$", "7", "0", "10", "1", "11", "10$", "0$"]   # also names that collide when a scope number is glued to them without a separator
+LOCALS = ["1$", "2$", "7", "0", "10", "1", "11", "10$", "0$", "1x", "0ball", "2.a", "9z$", "8", "19"]   # also names that collide when a scope number is glued to them without a separator
 
 
 @st.composite
@@ -214,7 +214,7 @@ def c11_program(draw):
 def scopes_program(draw):
     """many local-label scopes (also spread over files and an include) that all reuse the same multi-digit local names;
     every scope defines a subset and refers to it; optionally one scope refers to a name it does not define"""
-    names = ["0", "1", "10", "11", "100", "110", "2", "01"]
+    names = ["0", "1", "10", "11", "100", "110", "2", "01", "1a", "10x", "0.b"]
     nscopes = draw(st.integers(8, 26))
     nfiles = draw(st.integers(1, 3))
     files = {f"s{'abc'[f]}.mac": [] for f in range(nfiles)}
